@@ -643,10 +643,20 @@ def specials(rng):
               {"decl": "int pt_val(Pt p)"}, {"decl": "int pt_ptr(const Pt *p)"}]
     # a vector the library resizes: the caller's allocatable array takes the new extent (grow and shrink)
     decls += [{"decl": "void vgrow(std::vector<int> &arg +intent(inout)+deref(allocatable), int extra)"}]
+    # std::string results into a fixed-length Fortran variable (function result with +len, result as an output argument): the
+    # variable is blank filled, also when the library returns the empty string
+    decls += [{"decl": "const std::string getlbl(int i) +len(12)"},
+              {"decl": "const std::string getlbl2(int i)", "format": {"F_string_result_as_arg": "output"}}]
+    # a void function template beside an ordinary function of the same name: the wrapper of an instantiation names its template
+    # arguments in the call (deduction alone would prefer the ordinary function).  The ordinary one has no Fortran wrapper: a
+    # generic with both would be ambiguous.
+    decls += [{"decl": "void put(int v)", "options": {"wrap_fortran": False}},
+              {"decl": "template<typename T> void put(T v)", "cxx_template": [{"instantiation": "<int>"}, {"instantiation": "<double>"}]}]
     decls += [{"decl": "int labelv(std::string name)"}, {"decl": "int labelv(bool flag)"}]          # the same with the string passed by value
     # a const method whose class ALSO has a non-const overload that is not wrapped: the wrapper must call through a pointer to const
     mdecls = [{"decl": "int addmul(int a, int b = 2)"}, {"decl": "int peekc() const"}]
-    hpp = ["int total_length(const std::vector<std::string> &names);", "int label(const std::string &name);", "int label(bool flag);", "int labelv(std::string name);", "int labelv(bool flag);", "void vgrow(std::vector<int> &arg, int extra);", "struct Pt { int x; double y; };",
+    hpp = ["int total_length(const std::vector<std::string> &names);", "int label(const std::string &name);", "int label(bool flag);", "int labelv(std::string name);", "int labelv(bool flag);", "void put(int v);", "void eq_trace_put(double v, int size);",
+           "template<typename T> void put(T v) { eq_trace_put((double)v, (int)sizeof(T)); }", "const std::string getlbl(int i);", "const std::string getlbl2(int i);", "void vgrow(std::vector<int> &arg, int extra);", "struct Pt { int x; double y; };",
            "int pt_cref(const Pt &p);", "void pt_scale(Pt &p, int k);", "int pt_val(Pt p);", "int pt_ptr(const Pt *p);", "double tagd(const std::string &name, double arg);",
            "int defs(int a, int b = 10, int c = 100);", "double defd(double x, double y = 0.0);",
            "void eq_trace_twice(double v);",
@@ -674,6 +684,10 @@ def specials(rng):
            'int pt_ptr(const Pt *p) { std::cout << "callee pt_ptr(" << p->x << ","; show(p->y); std::cout << ")\\n"; return p->x + 2; }',
            'void vgrow(std::vector<int> &arg, int extra) { std::cout << "callee vgrow(n=" << arg.size() << ",extra=" << extra << ")\\n"; '
            'if (extra >= 0) { for (int i = 0; i < extra; ++i) arg.push_back(100 + i); } else { arg.resize(arg.size() + extra); } for (size_t i = 0; i < arg.size(); ++i) arg[i] += 1; }',
+           'const std::string getlbl(int i) { std::cout << "callee getlbl(" << i << ")\\n"; return i == 0 ? std::string() : std::string("label") + std::to_string(i); }',
+           'const std::string getlbl2(int i) { std::cout << "callee getlbl2(" << i << ")\\n"; return i == 0 ? std::string() : std::string("tag") + std::to_string(i); }',
+           'void put(int v) { std::cout << "callee put ordinary(" << v << ")\\n"; }',
+           'void eq_trace_put(double v, int size) { std::cout << "callee put<T> sizeof=" << size << " ("; show(v); std::cout << ")\\n"; }',
            'int labelv(std::string name) { std::cout << "callee labelv(string [" << name << "])\\n"; return 200 + (int)name.size(); }',
            'int labelv(bool flag) { std::cout << "callee labelv(bool " << (flag ? 1 : 0) << ")\\n"; return flag ? 3 : 2; }',
            'int label(bool flag) { std::cout << "callee label(bool " << (flag ? 1 : 0) << ")\\n"; return flag ? 1 : 0; }',
@@ -735,6 +749,15 @@ def specials(rng):
                  "        eq_begin(\"%s\"); eq_int(sp_n); for (long i = 0; i < sp_n; ++i) eq_int(sp_v[i]); eq_end(); }" % tag]
     direct += ["    }"]
     cdrv += ["    }"]
+    for fn in ("getlbl", "getlbl2"):
+        for iv in (0, 3):
+            direct += ["    { std::string sp_r = %s(%d); eq_begin(\"%s_%d\"); eq_str(sp_r.data(), (int)sp_r.size()); eq_end(); }" % (fn, iv, fn, iv)]
+            cdrv += ["    { char sp_b[12]; std::memset(sp_b, '#', 12); EQ_%s_bufferify(%d, sp_b, 12); int sp_m = 12; while (sp_m > 0 && sp_b[sp_m-1] == ' ') --sp_m;" % (fn, iv),
+                     "      eq_begin(\"%s_%d\"); eq_str(sp_b, sp_m); eq_end(); }" % (fn, iv)]
+    direct += ["    put<int>(8); put<double>(1.5); eq_begin(\"put\"); eq_end();"]
+    cdrv += ["    EQ_put_int(8); EQ_put_double(1.5); eq_begin(\"put\"); eq_end();"]
+    direct += dshow("labelv_pad", "labelv(std::string(%s))" % cstr(tg))
+    cdrv += dshow("labelv_pad", "EQ_labelv_0((char *)%s)" % cstr(tg))
     direct += dshow("labelv_s", "labelv(std::string(%s))" % cstr(lab)) + dshow("labelv_b", "labelv(false)")
     cdrv += dshow("labelv_s", "EQ_labelv_0((char *)%s)" % cstr(lab)) + dshow("labelv_b", "EQ_labelv_1(false)")
     direct += dshow("tlen", "total_length(std::vector<std::string>{%s})" % ", ".join(cstr(x) for x in sv))
@@ -787,6 +810,13 @@ def specials(rng):
     for tag, ex in (("vgrow", vg1), ("vshrink", vg2)):
         fbody += ["    call vgrow(sp_vg, %d_C_INT)" % ex, "    call eq_begin(\"%s\"//C_NULL_CHAR)" % tag, "    call eq_int(int(size(sp_vg), C_LONG))",
                   "    do sp_i = 1, size(sp_vg)", "        call eq_int(int(sp_vg(sp_i), C_LONG))", "    end do", "    call eq_end()"]
+    fdecl += ["    character(len=12) :: sp_s"]
+    for iv in (0, 3):
+        fbody += ["    sp_s = '############'", "    sp_s = getlbl(%d_C_INT)" % iv] + fshow("getlbl_%d" % iv, "call eq_str(sp_s, len_trim(sp_s, kind=C_INT))")
+    for iv in (0, 3):
+        fbody += ["    sp_s = '############'", "    call getlbl2(%d_C_INT, sp_s)" % iv] + fshow("getlbl2_%d" % iv, "call eq_str(sp_s, len_trim(sp_s, kind=C_INT))")
+    fbody += ["    call put(8_C_INT)", "    call put(1.5_C_DOUBLE)"] + fshow("put", "continue")
+    fbody += ["    sp_i = labelv(sp_tg)"] + fshow("labelv_pad", f_show("int", "sp_i"))       # a blank-padded variable: trimmed on the way
     fbody += ["    sp_i = labelv(%s)" % fstr(lab)] + fshow("labelv_s", f_show("int", "sp_i"))
     fbody += ["    sp_i = labelv(.false.)"] + fshow("labelv_b", f_show("int", "sp_i"))
     fbody += ["    sp_sv(%d) = %s" % (k + 1, fstr(x.ljust(svw))) for k, x in enumerate(sv)]
